@@ -2,10 +2,11 @@ package idxfile
 
 import (
 	"bytes"
-	"crypto/sha1"
+	"crypto"
 	"encoding/binary"
 
 	"github.com/go-git/go-git/v6/plumbing"
+	"github.com/go-git/go-git/v6/plumbing/hash"
 )
 
 // buildMinimalIdx constructs a minimal valid idx v2 file with the given
@@ -123,8 +124,9 @@ func buildOOBOffset64Idx() ([]byte, plumbing.Hash) {
 	buf.Write(make([]byte, hashSize))
 
 	// Idx checksum: SHA1 of everything written so far.
-	sum := sha1.Sum(buf.Bytes())
-	buf.Write(sum[:])
+	hasher := hash.New(crypto.SHA1)
+	hasher.Write(buf.Bytes())
+	buf.Write(hasher.Sum(nil))
 
 	var h plumbing.Hash
 	h.ResetBySize(hashSize)
